@@ -291,3 +291,139 @@ Example vec_example :
   (do d <- ve_set_value v 1 3; Ok d) = Ok (write_n_state_loop Nine [5; 5; 5; 3; 5] 0 None) /\
   ve_get_value v 4 = Ok 5.
 Proof. split; reflexivity. Qed.
+
+(* ------------------------------------------------------------------ one per-bit record through the buffer *)
+
+(* every vector of the buffer holds the packed form of its current symbols *)
+Definition vinv' (v : vec_entry) (syms : list N) : Prop := vinv v syms /\ length (ve_bit_change v) = ve_bits v.
+Definition vbinv (vb : vec_buffer) (S : list (list N)) : Prop := Forall2 vinv' (vb_vecs vb) S.
+
+(* a raw change whose data is the packed form of a valid symbol list of the vector's width: what the store theorems
+   (EncoderProofs op_ok) ask of the GHW path *)
+Definition packed_raw (op : enc_op) : Prop :=
+  match op with
+  | OpRaw _ data st => exists syms, data = write_n_state_loop st syms 0 None /\ small_syms st syms /\ Forall (fun x => x <= 8) syms
+  | _ => False
+  end.
+
+Lemma vinv_clear v syms : vinv v syms -> vinv (clear_changes v) syms.
+Proof. intros H. exact H. Qed.
+
+Lemma forall2_update {A B} (P : A -> B -> Prop) l1 : forall l2 k a b, Forall2 P l1 l2 -> P a b ->
+  Forall2 P (list_update l1 k a) (list_update l2 k b).
+Proof.
+  induction l1 as [|x l1 IH]; intros l2 k a b H Hab; inversion H; subst; [destruct k; constructor|].
+  destruct k as [|k]; cbn [list_update]; constructor; auto.
+Qed.
+
+Lemma forall2_nth {A B} (P : A -> B -> Prop) l1 : forall l2 k a, Forall2 P l1 l2 -> nth_error l1 k = Some a ->
+  exists b, nth_error l2 k = Some b /\ P a b.
+Proof.
+  induction l1 as [|x l1 IH]; intros l2 k a H Hn; [destruct k; discriminate|].
+  inversion H; subst. destruct k as [|k]; cbn [nth_error] in *.
+  - inversion Hn; subst. eauto.
+  - eapply IH; eauto.
+Qed.
+
+(* VecBuffer: one per-bit record (read_signal_value on a vector element) hands the store zero, one or two raw changes,
+   each carrying the packed form of the vector's symbols at that moment, and leaves every vector of the buffer equal to
+   the packed form of its updated symbols *)
+Theorem vec_update_spec parse_f64 lz_compress cap vb e vec_id signal_index value sref st vb' e' S v :
+  vbinv vb S -> nth_error (vb_vecs vb) vec_id = Some v -> st = ve_states v ->
+  value < 2 ^ sbits (ve_states v) -> value <= 8 ->
+  vec_update vb e vec_id signal_index value sref st = Ok (vb', e') ->
+  exists ops syms bit,
+    nth_error S vec_id = Some syms /\ bit_of v signal_index = Ok bit /\ (bit < ve_bits v)%nat /\
+    run_ops parse_f64 lz_compress cap e ops = Ok e' /\ Forall packed_raw ops /\ (length ops <= 2)%nat /\
+    vbinv vb' (list_update S vec_id (list_update syms (ve_bits v - 1 - bit) value)).
+Proof.
+  intros Hinv Hv -> Hval H8 H. unfold vec_update in H. rewrite Hv in H. cbn [of_option bind] in H.
+  destruct (forall2_nth vinv' _ _ _ _ Hinv Hv) as (syms & HS & [Hvi Hmask]).
+  destruct (bit_of v signal_index) as [bit| |] eqn:Ebit; try discriminate. cbn [bind] in H.
+  destruct (nth_error (ve_bit_change v) bit) as [changed|] eqn:Ech; [|discriminate]. cbn [of_option bind] in H.
+  (* the bit is inside the vector: the model's get/set would otherwise panic; we derive it from the change mask *)
+  destruct (Nat.ltb_spec bit (ve_bits v)) as [Hbit|Hbit].
+  2:{ exfalso. assert (bit < length (ve_bit_change v))%nat by (apply nth_error_Some; congruence). lia. }
+  rewrite (ve_get_spec v syms bit Hvi Hbit) in H. cbn [bind] in H.
+  set (old := nth (ve_bits v - 1 - bit) syms 0) in *.
+  (* first dispatch *)
+  destruct (changed && negb (old =? value)) eqn:Efirst.
+  - destruct (raw e sref (ve_data v) (ve_states v)) as [e1| |] eqn:E1; try discriminate. cbn [bind] in H.
+    pose proof (vinv_clear v syms Hvi) as Hvc.
+    destruct (ve_set_value (clear_changes v) bit value) as [data| |] eqn:Eset; try discriminate. cbn [bind] in H.
+    pose proof (vinv_set (clear_changes v) syms bit value data Hvc Hbit Hval H8 Eset) as Hv2.
+    cbn [clear_changes ve_bits ve_states ve_ref ve_max_index ve_signal_change ve_bit_change] in *.
+    match type of H with context [full_signal_has_changed ?vv] => set (v2 := vv) in *; destruct (full_signal_has_changed v2) eqn:Efull end.
+    + destruct (raw e1 sref (ve_data v2) (ve_states v)) as [e2| |] eqn:E2; try discriminate. cbn [bind] in H. inversion H; subst vb' e'.
+      exists [OpRaw sref (ve_data v) (ve_states v); OpRaw sref (ve_data v2) (ve_states v)], syms, bit.
+      split; [exact HS|]. split; [reflexivity|]. split; [exact Hbit|]. split.
+      { cbn [WaveMem.run_ops WaveMem.run_op]. unfold raw in E1, E2. rewrite E1. cbn [bind]. rewrite E2. reflexivity. }
+      split.
+      { constructor; [|constructor; [|constructor]].
+        - destruct Hvi as (Hd & _ & Hs & Hle). exists syms. repeat split; assumption.
+        - specialize (Hv2 (list_update (repeat false (ve_bits v)) bit true) true). destruct Hv2 as (Hd & _ & Hs & Hle).
+          eexists. repeat split; [exact Hd|exact Hs|exact Hle]. }
+      split; [cbn; lia|].
+      unfold vbinv. cbn [vb_vecs]. apply forall2_update; [exact Hinv|]. split; [apply vinv_clear; apply Hv2|cbn [clear_changes ve_bit_change ve_bits]; apply repeat_length].
+    + inversion H; subst vb' e'.
+      exists [OpRaw sref (ve_data v) (ve_states v)], syms, bit.
+      split; [exact HS|]. split; [reflexivity|]. split; [exact Hbit|]. split.
+      { cbn [WaveMem.run_ops WaveMem.run_op]. unfold raw in E1. rewrite E1. reflexivity. }
+      split.
+      { constructor; [|constructor]. destruct Hvi as (Hd & _ & Hs & Hle). exists syms. repeat split; assumption. }
+      split; [cbn; lia|].
+      unfold vbinv. cbn [vb_vecs]. apply forall2_update; [exact Hinv|]. split; [apply Hv2|unfold v2; cbn [ve_bit_change ve_bits]; rewrite list_update_length, ?repeat_length; auto].
+  - cbn [bind] in H.
+    destruct (ve_set_value v bit value) as [data| |] eqn:Eset; try discriminate. cbn [bind] in H.
+    pose proof (vinv_set v syms bit value data Hvi Hbit Hval H8 Eset) as Hv2.
+    match type of H with context [full_signal_has_changed ?vv] => set (v2 := vv) in *; destruct (full_signal_has_changed v2) eqn:Efull end.
+    + destruct (raw e sref (ve_data v2) (ve_states v)) as [e2| |] eqn:E2; try discriminate. cbn [bind] in H. inversion H; subst vb' e'.
+      exists [OpRaw sref (ve_data v2) (ve_states v)], syms, bit.
+      split; [exact HS|]. split; [reflexivity|]. split; [exact Hbit|]. split.
+      { cbn [WaveMem.run_ops WaveMem.run_op]. unfold raw in E2. rewrite E2. reflexivity. }
+      split.
+      { constructor; [|constructor]. specialize (Hv2 (list_update (ve_bit_change v) bit true) true). destruct Hv2 as (Hd & _ & Hs & Hle).
+        eexists. repeat split; [exact Hd|exact Hs|exact Hle]. }
+      split; [cbn; lia|].
+      unfold vbinv. cbn [vb_vecs]. apply forall2_update; [exact Hinv|]. split; [apply vinv_clear; apply Hv2|cbn [clear_changes ve_bit_change ve_bits]; apply repeat_length].
+    + inversion H; subst vb' e'. exists [], syms, bit.
+      split; [exact HS|]. split; [reflexivity|]. split; [exact Hbit|]. split; [reflexivity|]. split; [constructor|].
+      split; [cbn; lia|].
+      unfold vbinv. cbn [vb_vecs]. apply forall2_update; [exact Hinv|]. split; [apply Hv2|unfold v2; cbn [ve_bit_change ve_bits]; rewrite list_update_length, ?repeat_length; auto].
+Qed.
+
+(* finish_time_step / process_changed_signals: every vector still listed as changed is handed to the store once, as the
+   packed form of its current symbols; the symbols of the buffer are unchanged *)
+Lemma process_changed_spec parse_f64 lz_compress cap : forall cl vecs e vecs' e' S,
+  Forall2 vinv' vecs S -> process_changed vecs cl e = Ok (vecs', e') ->
+  exists ops, run_ops parse_f64 lz_compress cap e ops = Ok e' /\ Forall packed_raw ops /\ Forall2 vinv' vecs' S.
+Proof.
+  induction cl as [|id cl IH]; intros vecs e vecs' e' S Hinv H; cbn [process_changed] in H.
+  - inversion H; subst. exists []. split; [reflexivity|]. split; [constructor|exact Hinv].
+  - destruct (nth_error vecs id) as [v|] eqn:Ev; [|discriminate]. cbn [of_option bind] in H.
+    destruct (forall2_nth vinv' _ _ _ _ Hinv Ev) as (syms & HS & [Hvi Hmask]).
+    unfold raw in H. destruct (ve_signal_change v).
+    + destruct (raw_value_change e (ve_ref v) (ve_data v) (ve_states v)) as [e1| |] eqn:E1; try discriminate. cbn [bind] in H.
+      assert (Hinv1 : Forall2 vinv' (list_update vecs id (clear_changes v)) S).
+      { replace S with (list_update S id syms).
+        - apply forall2_update; [exact Hinv|]. split; [exact Hvi|cbn [clear_changes ve_bit_change ve_bits]; apply repeat_length].
+        - clear -HS. revert id HS. induction S as [|x S IH]; intros [|k] H; try discriminate; cbn [list_update nth_error] in *.
+          + now inversion H.
+          + f_equal. now apply IH. }
+      destruct (IH _ _ _ _ _ Hinv1 H) as (ops & Hr & Hp & Hi).
+      exists (OpRaw (ve_ref v) (ve_data v) (ve_states v) :: ops). split; [|split; [|exact Hi]].
+      * cbn [WaveMem.run_ops WaveMem.run_op]. rewrite E1. cbn [bind]. exact Hr.
+      * constructor; [|exact Hp]. destruct Hvi as (Hd & _ & Hs & Hle). exists syms. repeat split; assumption.
+    + now apply (IH vecs e vecs' e' S).
+Qed.
+
+Theorem finish_time_step_spec parse_f64 lz_compress cap vb e vb' e' S : vbinv vb S ->
+  finish_time_step vb e = Ok (vb', e') ->
+  exists ops, run_ops parse_f64 lz_compress cap e ops = Ok e' /\ Forall packed_raw ops /\ vbinv vb' S.
+Proof.
+  intros Hinv H. unfold finish_time_step in H.
+  destruct (process_changed (vb_vecs vb) (vb_change_list vb) e) as [[vecs e1]| |] eqn:E; try discriminate.
+  cbn [bind] in H. inversion H; subst vb' e'.
+  destruct (process_changed_spec parse_f64 lz_compress cap _ _ _ _ _ S Hinv E) as (ops & Hr & Hp & Hi).
+  exists ops. split; [exact Hr|]. split; [exact Hp|exact Hi].
+Qed.
